@@ -136,6 +136,14 @@ func genReq(r *hv.Rng, name string) *condh.Req {
 	if r.Chance(3, 4) {
 		q.TLS = &condh.TLS{Sni: pickS(r, []string{"", "example.com", "Example.ORG"}), CA: pickS(r, []string{"", "ca1", "CA2"}), ClientAuth: r.Bool()}
 	}
+	if strings.HasPrefix(name, "ses_tls") { // both outcomes of the secure / TlsState / ClientAuth / name guards
+		q.Secure = r.Chance(3, 4)
+		if r.Chance(7, 8) {
+			q.TLS = &condh.TLS{Sni: pickS(r, []string{"", "example.com", "Example.ORG"}), CA: pickS(r, []string{"", "ca1", "CA2"}), ClientAuth: r.Chance(2, 3)}
+		} else {
+			q.TLS = nil
+		}
+	}
 	if r.Chance(4, 5) {
 		q.HasCtx = true
 		for n := r.Intn(3); n > 0; n-- {
